@@ -471,6 +471,88 @@ impl NOuter {
 }
 impl Model for NOuter {}
 
+/// Late-drop scenario (`deadlate <threads> <victim first> <query>`): a model sends twice through a port connected to a
+/// recipient outside the simulation (mailbox of capacity 1, owned by another model) and to that other model; the second
+/// send is suspended on the full mailbox; the owner, handling the first message, drops the mailbox.  The suspended send
+/// fails: the call must report NoRecipient naming the sender, and the next call Terminated.
+struct LVictim;
+impl LVictim {
+    async fn input(&mut self) {}
+    async fn replier(&mut self) -> u32 {
+        0
+    }
+}
+impl Model for LVictim {}
+struct LDropper {
+    victim: Option<Mailbox<LVictim>>,
+}
+impl LDropper {
+    async fn input(&mut self) {
+        self.victim.take();
+    }
+    async fn replier(&mut self) -> u32 {
+        self.victim.take();
+        1
+    }
+}
+impl Model for LDropper {}
+#[derive(Default)]
+struct LSender {
+    out: nexosim::ports::Output<()>,
+    req: nexosim::ports::Requestor<(), u32>,
+}
+impl LSender {
+    async fn send_twice(&mut self) {
+        self.out.send(()).await;
+        self.out.send(()).await;
+    }
+    async fn send_then_request(&mut self) {
+        self.out.send(()).await;
+        let _ = self.req.send(()).await.count();
+    }
+}
+impl Model for LSender {}
+
+fn deadlate(threads: usize, victim_first: bool, query: bool) -> String {
+    let victim = Mailbox::with_capacity(1);
+    let dropper_box = Mailbox::new();
+    let sender_box = Mailbox::new();
+    let sender_addr = sender_box.address();
+    let mut sender = LSender::default();
+    if query {
+        sender.out.connect(LVictim::input, &victim);
+        sender.req.connect(LVictim::replier, &victim);
+        sender.req.connect(LDropper::replier, &dropper_box);
+    } else if victim_first {
+        sender.out.connect(LVictim::input, &victim);
+        sender.out.connect(LDropper::input, &dropper_box);
+    } else {
+        sender.out.connect(LDropper::input, &dropper_box);
+        sender.out.connect(LVictim::input, &victim);
+    }
+    let dropper = LDropper { victim: Some(victim) };
+    let (tx, rx) = std::sync::mpsc::channel();
+    std::thread::spawn(move || {
+        let r = match SimInit::with_num_threads(threads).add_model(sender, sender_box, "sender").add_model(dropper, dropper_box, "dropper").init(MonotonicTime::EPOCH) {
+            Ok((mut sim, _s)) => {
+                let r1 = if query { sim.process_event(LSender::send_then_request, (), &sender_addr) } else { sim.process_event(LSender::send_twice, (), &sender_addr) };
+                let r2 = sim.process_event(LSender::send_twice, (), &sender_addr);
+                let sh = |r: Result<(), ExecutionError>| match r {
+                    Ok(()) => "ok".to_string(),
+                    Err(e) => exec_err(&e),
+                };
+                format!("{} then {}", sh(r1), sh(r2))
+            }
+            Err(e) => format!("init-{}", exec_err(&e)),
+        };
+        let _ = tx.send(r);
+    });
+    match rx.recv_timeout(std::time::Duration::from_secs(20)) {
+        Ok(r) => format!("deadlate {r}"),
+        Err(_) => "deadlate hung".into(),
+    }
+}
+
 fn nestrun(threads: usize, kind: u8, n: usize) -> String {
     let res = Arc::new(Mutex::new(String::from("-")));
     let mb = Mailbox::new();
@@ -1133,6 +1215,15 @@ impl Engine for Net {
                     out.tags.push("nested".into());
                     r
                 }
+                ["deadlate", th, vf, q] => {
+                    let r = deadlate(th.parse().unwrap(), *vf == "1", *q == "1");
+                    if r != "deadlate no-recipient sender then terminated" {
+                        out.monitor.push(("C11".into(), format!("a send suspended on the full mailbox of a recipient whose mailbox is then dropped ({th} thread(s), {}): the call must report NoRecipient naming the sender and the next call Terminated; got `{r}`", if *q == "1" { "query broadcast" } else { "event broadcast" })));
+                    }
+                    out.nontrivial = true;
+                    out.tags.push("deadlate".into());
+                    r
+                }
                 ["nestrun", th, kind, n] => {
                     let (th, n): (usize, usize) = (th.parse().unwrap(), n.parse().unwrap());
                     let k: u8 = match *kind {
@@ -1488,6 +1579,9 @@ impl Engine for Net {
 fn gen_case(rng: &mut Rng, _idx: usize, tier: Tier, focus: &str) -> Case {
     if (focus == "C19" && rng.chance(1, 10)) || rng.chance(1, 60) {
         return Case { lines: vec!["case net exec st".into(), format!("nested {} {}", rng.below(5), rng.below(5))] };
+    }
+    if (focus == "C11" && rng.chance(1, 15)) || rng.chance(1, 120) {
+        return Case { lines: vec!["case net exec st".into(), format!("deadlate {} {} {}", rng.pick(&[1u64, 1, 2, 4]), rng.below(2), rng.below(2))] };
     }
     if ((focus == "C06" || focus == "C11") && rng.chance(1, 12)) || rng.chance(1, 90) {
         let kind = *rng.pick(&["clean", "lose", "deadlock", "panic"]);
